@@ -27,8 +27,9 @@ import (
 // ---- guarded memory ----
 
 type arena struct {
-	r    *cq.RNG
-	bufs [][]byte
+	r     *cq.RNG
+	bufs  [][]byte
+	force int // >= 0: spare capacity of every window (corpus witnesses); otherwise random
 }
 
 func pattern(buf []byte, salt int) {
@@ -51,6 +52,9 @@ func (a *arena) window(content []byte, spare int) (s []byte, off, capa int) {
 }
 
 func (a *arena) spare() int {
+	if a.force >= 0 {
+		return a.force
+	}
 	switch a.r.Intn(4) {
 	case 0:
 		return 0
@@ -152,9 +156,12 @@ func okTerm(s string) bool { return !strings.Contains(s, "Unknown") }
 // ---- cases ----
 
 type H struct {
-	s *cases.Set
-	r *cq.RNG
+	s          *cases.Set
+	r          *cq.RNG
+	forceSpare int
 }
+
+func (h *H) arena() *arena { return &arena{r: h.r, force: h.forceSpare} }
 
 func guard(f func() error) (status string) {
 	defer func() {
@@ -170,7 +177,7 @@ func guard(f func() error) (status string) {
 
 // decode: PHYPayload.UnmarshalBinary on a guarded window, then the caller scribbles over the buffer.
 func (h *H) decode(wire []byte, spare int, kind string) {
-	a := &arena{r: h.r}
+	a := h.arena()
 	in, off, capa := a.window(wire, spare)
 	bk := cq.Bytes(a.bufs[0])
 	var p lorawan.PHYPayload
@@ -200,7 +207,7 @@ func (h *H) decode(wire []byte, spare int, kind string) {
 }
 
 func (h *H) cmdDecode(up bool, wire []byte, spare int) {
-	a := &arena{r: h.r}
+	a := h.arena()
 	in, off, capa := a.window(wire, spare)
 	bk := cq.Bytes(a.bufs[0])
 	var m lorawan.MACCommand
@@ -226,7 +233,7 @@ func (h *H) cmdDecode(up bool, wire []byte, spare int) {
 }
 
 func (h *H) encFRM(data []byte, spare int) {
-	a := &arena{r: h.r}
+	a := h.arena()
 	in, off, capa := a.window(data, spare)
 	bk := cq.Bytes(a.bufs[0])
 	var key lorawan.AES128Key
@@ -249,7 +256,7 @@ func (h *H) encFRM(data []byte, spare int) {
 }
 
 func (h *H) encFOpts(data []byte, spare int) {
-	a := &arena{r: h.r}
+	a := h.arena()
 	in, off, capa := a.window(data, spare)
 	bk := cq.Bytes(a.bufs[0])
 	var key lorawan.AES128Key
@@ -272,7 +279,7 @@ func (h *H) encFOpts(data []byte, spare int) {
 }
 
 func (h *H) decryptJA(ct []byte, spare int) {
-	a := &arena{r: h.r}
+	a := h.arena()
 	in, off, capa := a.window(ct, spare)
 	bk := cq.Bytes(a.bufs[0])
 	var key lorawan.AES128Key
@@ -296,7 +303,7 @@ func (h *H) decryptJA(ct []byte, spare int) {
 }
 
 func (h *H) marshal(p lorawan.PHYPayload, kind string) {
-	a := &arena{r: h.r}
+	a := h.arena()
 	f, ok := a.hphy(&p)
 	if !ok {
 		return
@@ -329,7 +336,7 @@ func (h *H) marshal(p lorawan.PHYPayload, kind string) {
 }
 
 func (h *H) mic(p lorawan.PHYPayload, which int, set bool) {
-	a := &arena{r: h.r}
+	a := h.arena()
 	f, ok := a.hphy(&p)
 	if !ok {
 		return
@@ -381,7 +388,7 @@ func (h *H) mic(p lorawan.PHYPayload, which int, set bool) {
 }
 
 func (h *H) frameCrypt(p lorawan.PHYPayload, which int) {
-	a := &arena{r: h.r}
+	a := h.arena()
 	f, ok := a.hphy(&p)
 	if !ok {
 		return
@@ -423,9 +430,9 @@ func main() {
 	dir, seed, thorough := cases.Args()
 	r := cq.NewRNG(seed)
 	s := cases.New("C10", dir, "LW.Corr.C10",
-		"guard-byte harness: every slice handed to the implementation is a window of a patterned backing buffer with 0..8 guard bytes in front, spare capacity {0, 1..4, 0..31} and 0..4 guard bytes behind. Decode: valid data frames (4 MTypes x FOpts 0..15 x FPort absent/0/n x FRMPayload lengths incl. 0,1,15,16,17,241,242), join/rejoin/proprietary frames, truncations and random bytes, then the caller overwrites the buffer. Exported EncryptFRMPayload lengths 0..64 exhaustively x spare capacity classes + long payloads; EncryptFOpts lengths 0..17; DecryptJoinAcceptPayload 12/28(+MIC) byte forms and malformed lengths; MarshalBinary / MIC validate+set / frame-level encrypt+decrypt of frames whose DataPayload / proprietary payload bytes live in guarded windows, output overwritten incl. capacity; reuse: every payload decoder of the root package into a used vs. a fresh value (all built-in kinds, ChMask, CFList payloads, JoinAccept 12 after 28, FHDR/MACPayload with and without FOpts/FPort/FRMPayload, MACCommand, PHYPayload); bands: two instances per band, random AddChannel/Disable/Enable history on one, snapshot of the other. Non-trivial = the call succeeded.")
+		"guard-byte harness: every slice handed to the implementation is a window of a patterned backing buffer with 0..8 guard bytes in front, spare capacity {0, 1..4, 0..31} and 0..4 guard bytes behind. Decode: valid data frames (4 MTypes x FOpts 0..15 x FPort absent/0/n x FRMPayload lengths incl. 0,1,15,16,17,241,242), join/rejoin/proprietary frames, truncations and random bytes, then the caller overwrites the buffer. Exported EncryptFRMPayload lengths 0..64 exhaustively x spare capacity classes + long payloads; EncryptFOpts lengths 0..17; DecryptJoinAcceptPayload 12/28(+MIC) byte forms and malformed lengths; MarshalBinary / MIC validate+set / frame-level encrypt+decrypt of frames whose DataPayload / proprietary payload bytes live in guarded windows, output overwritten incl. capacity; the same on hand-built frames whose FOpts / FRMPayload lists have 2..4 entries mixing DataPayload windows, built-in and proprietary MAC commands; reuse: every payload decoder of the root package into a used vs. a fresh value (all built-in kinds, ChMask, CFList payloads, JoinAccept 12 after 28, FHDR/MACPayload with and without FOpts/FPort/FRMPayload, MACCommand, PHYPayload); bands: two instances per band, random AddChannel/Disable/Enable history on one, snapshot of the other. Non-trivial = the call succeeded.")
 	s.ShardSize = 120
-	h := &H{s: s, r: r}
+	h := &H{s: s, r: r, forceSpare: -1}
 	for _, reg := range []struct {
 		up   bool
 		cid  lorawan.CID
@@ -454,7 +461,7 @@ func main() {
 	for i := 0; i < 110*mult; i++ {
 		p := framefmt.DataFrame(r, framefmt.ValidDataOpt(r))
 		if b, err := p.MarshalBinary(); err == nil {
-			h.decode(b, (&arena{r: r}).spare(), "data")
+			h.decode(b, (&arena{r: r, force: -1}).spare(), "data")
 			if i%5 == 0 && len(b) > 1 { // truncation
 				h.decode(b[:r.Intn(len(b))], r.Intn(8), "truncated")
 			}
@@ -549,6 +556,9 @@ func main() {
 			h.frameCrypt(q, 2)
 		}
 	}
+
+	// ---- multi-entry FOpts / FRMPayload lists ----
+	h.mixed(mult)
 
 	// ---- reuse of values, band instances ----
 	h.reuse(mult)
